@@ -94,7 +94,8 @@ type c07Cfg struct {
 // c07Action kinds: write hold release fail heal rotate age tick flush restart
 type c07Action struct {
 	Kind  string `json:"k"`
-	Path  string `json:"path,omitempty"`  // write: "mp" (msgpack columnar, raw WAL entry) | "lp" (line protocol, row WAL entry)
+	Path  string `json:"path,omitempty"`  // write: "mp" (msgpack columnar top-level map, raw WAL entry) | "mpa1" ([{m,columns}] one-element array) | "mpan" (array of two columnar records) | "lp" (line protocol, row WAL entry)
+	RotIn bool   `json:"rotate_inside_tick,omitempty"` // tick: the WAL rotates between the tick's CurrentFile() read and its recovery scan
 	Meas  int    `json:"m,omitempty"`     // write: measurement index
 	Rows  int    `json:"rows,omitempty"`  // write: number of rows
 	Hours int    `json:"hours,omitempty"` // write: rows spread over this many hour partitions (1|2)
@@ -766,7 +767,19 @@ func (w *c07World) queueFullFinding() string {
 }
 
 func (w *c07World) doWrite(a c07Action) {
-	if f := w.queueFullFinding(); w.excluded(f) && w.buf.VerifC07QueueLen() >= w.buf.VerifC07QueueCap() {
+	// a request enqueues at most one flush task per record (two for "mpan"); an idle worker
+	// takes the first one directly, a parked one takes none
+	need := 1
+	if a.Path == "mpan" && a.Rows >= 2 {
+		need = 2
+	}
+	if len(w.backend.gatedIDs()) == 0 {
+		need--
+	}
+	if need < 1 && w.buf.VerifC07QueueLen() > 0 {
+		need = 1
+	}
+	if f := w.queueFullFinding(); w.excluded(f) && w.buf.VerifC07QueueCap()-w.buf.VerifC07QueueLen() < need {
 		verifkit.CountExcluded(f)
 		w.skip(a, "flush queue is full, a drop would follow ("+f+")")
 		return
@@ -819,10 +832,20 @@ func (w *c07World) doWrite(a c07Action) {
 			hosts[i] = fmt.Sprintf("h%d", ids[i]%3)
 			vs[i] = float64(ids[i]) + 0.5
 		}
-		payload, merr := msgpack.Marshal(map[string]interface{}{
-			"m":       meas,
-			"columns": map[string]interface{}{"time": times, "id": ids, "v": vs, "host": hosts},
-		})
+		item := func(lo, hi int) map[string]interface{} {
+			return map[string]interface{}{
+				"m":       meas,
+				"columns": map[string]interface{}{"time": times[lo:hi], "id": ids[lo:hi], "v": vs[lo:hi], "host": hosts[lo:hi]},
+			}
+		}
+		var body interface{} = item(0, n) // "mp": top-level map
+		switch {
+		case a.Path == "mpa1" || (a.Path == "mpan" && n < 2):
+			body = []interface{}{item(0, n)} // one columnar record wrapped in a one-element array
+		case a.Path == "mpan":
+			body = []interface{}{item(0, n/2), item(n/2, n)} // batch of two columnar records
+		}
+		payload, merr := msgpack.Marshal(body)
 		if merr != nil {
 			w.tb.Fatalf("HARNESS msgpack: %v", merr)
 		}
@@ -953,7 +976,7 @@ func (w *c07World) doAge(a c07Action) {
 
 // doTick runs one periodic WAL maintenance tick (lifted body). Returns the id of
 // the known finding whose generator exclusion forbids the tick in this state.
-func (w *c07World) doTick() string {
+func (w *c07World) doTick(rotateInside bool) string {
 	if w.walW == nil {
 		return ""
 	}
@@ -1002,8 +1025,21 @@ func (w *c07World) doTick() string {
 		}
 	}
 	w.stampAges()
-	w.tracef("tick (flush-failure flag=%v)", flag)
+	w.tracef("tick (flush-failure flag=%v rotate-inside=%v)", flag, rotateInside)
+	if rotateInside {
+		// ingest is live during the tick: the async WAL writer rotates (size/age threshold
+		// reached by an entry acknowledged earlier) after the tick read CurrentFile() and
+		// before recovery lists the directory
+		verifC07TickHook = func(string) {
+			verifC07TickHook = nil
+			if err := w.walW.VerifC07Rotate(); err != nil {
+				w.tb.Fatalf("HARNESS rotate inside tick: %v", err)
+			}
+			w.stampAges() // the rotated-in file is "just created"
+		}
+	}
 	verifC07MaintenanceTick(w.appCfg, w.buf, w.walW, w.safeAge, w.recCB, w.colCB, w.lg)
+	verifC07TickHook = nil
 	w.res.Ticks++
 	w.settle()
 	return ""
@@ -1055,7 +1091,7 @@ func (w *c07World) apply(a c07Action) {
 	case "age":
 		w.doAge(a)
 	case "tick":
-		if f := w.doTick(); f != "" {
+		if f := w.doTick(a.RotIn); f != "" {
 			verifkit.CountExcluded(f)
 			w.skip(a, "tick in this state triggers "+f)
 		}
@@ -1094,7 +1130,7 @@ func (w *c07World) terminal() {
 				k = -1
 			}
 			w.doAge(c07Action{Kind: "age", Old: k})
-			if f := w.doTick(); f != "" {
+			if f := w.doTick(false); f != "" {
 				w.res.Blocked = f
 				return
 			}
@@ -1240,7 +1276,7 @@ func c07GenHistory(t *rapid.T) c07History {
 		a := c07Action{Kind: rapid.SampledFrom(kinds).Draw(t, "kind")}
 		switch a.Kind {
 		case "write":
-			a.Path = rapid.SampledFrom([]string{"mp", "lp"}).Draw(t, "path")
+			a.Path = rapid.SampledFrom([]string{"mp", "mp", "lp", "lp", "mpa1", "mpan"}).Draw(t, "path")
 			a.Meas = rapid.IntRange(0, 1).Draw(t, "meas")
 			a.Rows = rapid.IntRange(1, 4).Draw(t, "rows")
 			a.Hours = 1
@@ -1255,6 +1291,8 @@ func c07GenHistory(t *rapid.T) c07History {
 			} else if a.Mode != "all" {
 				a.N = rapid.IntRange(1, 2).Draw(t, "n")
 			}
+		case "tick":
+			a.RotIn = rapid.IntRange(0, 2).Draw(t, "rotateInsideTick") == 0
 		case "age":
 			a.Old = rapid.SampledFrom([]int{-1, 0, 0, 1, 2, 3, 99}).Draw(t, "old")
 		case "recover":
@@ -1411,7 +1449,7 @@ func c07KF(t *testing.T, id string, h c07History, want func(r c07Result) bool, w
 // rotated, middle-aged WAL file is replayed by the next maintenance tick once
 // storage works again and ends up stored exactly once.
 func TestVerifC07_CleanReplayPath(t *testing.T) {
-	for _, path := range []string{"mp", "lp"} {
+	for _, path := range []string{"mp", "lp", "mpa1", "mpan"} {
 		h := c07H(true, true, c07FailAll, c07W(path, 2, 1), c07Heal, c07Rotate, c07AgeMid, c07Tick)
 		r := c07Run(t, h, false)
 		verifkit.Eval()
@@ -1431,6 +1469,19 @@ func TestVerifC07_CleanReplayPath(t *testing.T) {
 			t.Fatalf("HARNESS relative-dir history did not exercise a failed flush: %+v", rr)
 		}
 		c07Report(t, hr, rr)
+	}
+	// a rotation that lands inside a flush-failure tick (after its CurrentFile() read) must not
+	// cost the WAL copy of anything acknowledged afterwards
+	for _, rotateEach := range []bool{true, false} {
+		tickRot := c07Action{Kind: "tick", RotIn: true}
+		hs := c07H(true, rotateEach, c07FailAll, c07W("mp", 2, 1), c07Heal, c07Rotate, c07AgeMid, tickRot,
+			c07FailAll, c07W("mp", 2, 1), c07Heal, c07Rotate, c07AgeMid, c07Tick)
+		rs := c07Run(t, hs, false)
+		verifkit.Eval()
+		if rs.FlushFail < 2 {
+			t.Fatalf("HARNESS rotate-inside-tick history did not exercise two failed flushes: %+v", rs)
+		}
+		c07Report(t, hs, rs)
 	}
 	// a storage write that hangs until ingest.flush_timeout_seconds expires is a failed flush
 	// like any other: flagged, replayed by the next tick, stored exactly once
